@@ -64,7 +64,7 @@ func implRun(v, f, oz int64, mx, mn float64) (int64, int64, bool) {
 	loAlt := float64(f) * p2(25) / p2(v)
 	hi := transform.VerifCalcBitIndex(hiAlt, oz, mx, mn)
 	lo := transform.VerifCalcBitIndex(loAlt, oz, mx, mn)
-	return lo, hi, hi-lo > 10*maxRun
+	return lo, hi, float64(hi)-float64(lo) > 10*maxRun // (in floating point: the difference of two wild int64 values must not wrap)
 }
 
 func fnCalc() *run.Fn {
@@ -430,6 +430,96 @@ func widen(g *Gen, mn, mx float64) (float64, float64) {
 	return mn2, mx2
 }
 
+// nearFace: a voxel face A = f*2^(25-v) and a non-dyadic range whose border j/2^d (j odd) is A up to the rounding of the two bounds:
+// mn = A - j*w, mx = mn + w*2^d. The cell width at the output zoom is a few tenths to a few voxel heights, so the run stays short.
+func nearFace(g *Gen) (rng, int64, int64, int64, bool) {
+	v := g.Zoom()
+	f := g.VIndex(v)
+	if f == 0 {
+		f = 1
+	}
+	f = clampF(v, f)
+	res := p2(25 - v)
+	A := float64(f) * res
+	if g.Chance(0.5) && f+1 < int64(1)<<uint(v) {
+		A = float64(f+1) * res // the top face
+	}
+	oz := 1 + g.Int63n(20)
+	d := 1 + g.Int63n(oz)
+	j := 2*g.Int63n(int64(1)<<uint(d-1)) + 1
+	c := res * (0.05 + g.R.Float64()*4) // cell width at the output zoom
+	w := c * p2(oz-d)
+	mn := A - float64(j)*w
+	mx := mn + w*p2(d)
+	if g.Chance(0.5) {
+		mn = Ulp(mn, g.Intn(3)-1)
+		mx = Ulp(mx, g.Intn(3)-1)
+	}
+	if !(mx > mn) || math.Abs(mn) > p2(45) || math.Abs(mx) > p2(45) || fwdRunTooLong(v, oz, mx, mn) {
+		return rng{}, 0, 0, 0, false
+	}
+	return rng{mn, mx, "near-face"}, v, f, oz, true
+}
+
+type emitFn func(fn string, tags []string, triv bool, args ...w.Val) run.Verdict
+
+// nonFinite: NaN, infinities, the largest floats and equal heights through calcBitIndex, convertVerticallIDToBit (small zooms) and the exported
+// forward conversion (NaN heights are refused there; equal heights are the plain zoom change). The checker can only demand the index range and
+// contiguity for these; the model is compared bit for bit.
+func nonFinite(g *Gen, emit emitFn) {
+	// heights: NaN, equal, and the largest finite floats (max-min overflows). Infinite heights are left out on purpose: a rewrite that is
+	// equivalent in exact arithmetic (early exit for altitudes outside the range) legitimately differs there, and they are not height ranges.
+	hs := []float64{math.NaN(), math.MaxFloat64, -math.MaxFloat64, 0, 1, -1, 1e300, -1e300}
+	mx, mn := hs[g.Intn(len(hs))], hs[g.Intn(len(hs))]
+	apiMx, apiMn := mx, mn
+	if mx < mn { // the helpers are never reached with reversed heights: only the exported conversion gets those
+		mx, mn = mn, mx
+	}
+	zoom := g.Int63n(15)
+	tags := []string{"dir=calc", "non-finite"}
+	if math.IsNaN(mx) || math.IsNaN(mn) { // NaN heights are refused by the exported conversion and never reach the helpers
+		h, v := 1+g.Int63n(20), g.Zoom()
+		emit("ConvertExtendedSpatialIDsToQuadkeysAndVerticalIDs", []string{"dir=forward-api", "non-finite"}, false,
+			w.Strs([]string{g.ValidEIDAt(h, v)}), w.I(h), w.I(zoom), w.F(apiMx), w.F(apiMn))
+		return
+	}
+	if mx > mn && math.Abs(mx) < 1e299 && math.Abs(mn) < 1e299 { // a finite range: any altitude, NaN and infinities included
+		alts := []float64{math.NaN(), math.Inf(1), math.Inf(-1), math.MaxFloat64, -math.MaxFloat64, 5e-324}
+		emit("calcBitIndex", tags, zoom == 0, w.F(alts[g.Intn(len(alts))]), w.I(zoom), w.F(mx), w.F(mn))
+	} else {
+		alts := []float64{0, 1, -1, 5e-324, 12345.678, -1e10}
+		emit("calcBitIndex", tags, zoom == 0, w.F(alts[g.Intn(len(alts))]), w.I(zoom), w.F(mx), w.F(mn))
+	}
+	v := g.Zoom()
+	emit("convertVerticallIDToBit", []string{"dir=forward", "non-finite"}, zoom == 0, w.I(v), w.I(g.VIndex(v)), w.I(zoom), w.F(mx), w.F(mn))
+	if math.IsNaN(apiMx) || math.IsNaN(apiMn) || apiMx < apiMn {
+		h := 1 + g.Int63n(20)
+		emit("ConvertExtendedSpatialIDsToQuadkeysAndVerticalIDs", []string{"dir=forward-api", "non-finite"}, false,
+			w.Strs([]string{g.ValidEIDAt(h, v)}), w.I(h), w.I(zoom), w.F(apiMx), w.F(apiMn))
+	}
+}
+
+// emptyInputs: nothing to convert. The code raises no error then, even for reversed heights (no voxel is interpreted: not a violation).
+func emptyInputs(g *Gen, hr rng, emit emitFn) {
+	outH, outV := 1+g.Int63n(31), g.Zoom()
+	mx, mn := hr.mx, hr.mn
+	tags := []string{"empty-list"}
+	if g.Chance(0.5) {
+		mx, mn = mn, mx
+		tags = append(tags, "reversed")
+	}
+	switch g.Intn(4) {
+	case 0:
+		emit("ConvertExtendedSpatialIDsToQuadkeysAndVerticalIDs", append(tags, "dir=forward-api"), true, w.Strs([]string{}), w.I(outH), w.I(outV), w.F(mx), w.F(mn))
+	case 1:
+		emit("ConvertSpatialIDsToQuadkeysAndVerticalIDs", append(tags, "dir=forward-api", "sid"), true, w.Strs([]string{}), w.I(outH), w.I(outV), w.F(mx), w.F(mn))
+	case 2:
+		emit("ConvertQuadkeysAndVerticalIDsToExtendedSpatialIDs", []string{"empty-list", "dir=reverse-api"}, true, w.List{}, w.I(outH), w.I(outV))
+	default:
+		emit("ConvertQuadkeysAndVerticalIDsToSpatialIDs", []string{"empty-list", "dir=reverse-api", "sid"}, true, w.List{}, w.I(outV))
+	}
+}
+
 // faceZoom: the finest zoom v <= 35 at which b is a multiple of the voxel height 2^(25-v); -1 if none
 func faceZoom(b float64) int64 {
 	for v := int64(35); v >= 0; v-- {
@@ -527,6 +617,10 @@ func reverseCase(g *Gen) (vz, k, oz int64, r rng, tags []string, keep bool) {
 		b := float64(g.Intn(2)) // which bound of the cell is put on the line
 		mn := G - (float64(k)+b)*h0
 		mx := mn + h0*p2(vz)
+		if g.Chance(0.5) { // and one ulp off
+			mn = Ulp(mn, g.Intn(3)-1)
+			mx = Ulp(mx, g.Intn(3)-1)
+		}
 		if mx > mn && math.Abs(mn) < p2(46) && math.Abs(mx) < p2(46) {
 			r = rng{mn, mx, "near-line"}
 			tags = []string{"dir=reverse", "range=near-line", "stream=near-line", Tag("vz=%d", vz), Tag("oz=%d", oz)}
@@ -620,13 +714,22 @@ func init() {
 			hr := heightRange(g)
 			mx, mn := hr.mx, hr.mn
 			reversed := false
-			if i%23 == 5 { // maxHeight < minHeight: an error in the exported conversions
-				mx, mn = mn, mx
-				reversed = true
-			}
 			k := i % 10
 			if only >= 0 { // development aid: C17_ONLY=<0..9> restricts the stream to one kind of case
 				k = only
+			}
+			if k >= 8 && g.Chance(0.17) { // maxHeight < minHeight: an error in the exported conversions (about 1 case in 30 overall)
+				mx, mn = mn, mx
+				reversed = true
+				if g.Chance(0.25) { // reversed by a single ulp
+					mx = Ulp(mn, -1)
+				}
+			}
+			if i%37 == 11 { // non-finite and extreme heights / altitudes: the "all floats" theorems and the NaN -> error branch
+				nonFinite(g, emit)
+			}
+			if i%41 == 13 { // empty inputs, in both directions, with proper and with reversed heights
+				emptyInputs(g, hr, emit)
 			}
 			switch {
 			case k == 0 || k == 1: // calcBitIndex on arbitrary altitudes (the helpers are only ever called with max > min)
@@ -663,6 +766,17 @@ func init() {
 				mx, mn := hr.mx, hr.mn
 				v, f, pos := voxelFor(g, hr)
 				oz := outZoomFwd(g, hr, v, g.PickF(4, 30, 300, 1500))
+				if g.Chance(0.12) { // a non-dyadic range built so that one of its borders falls within rounding distance of a voxel face
+					if nr, nv, nf, noz, ok := nearFace(g); ok {
+						hr, mx, mn, v, f, oz, pos = nr, nr.mx, nr.mn, nv, nf, noz, "near-face"
+					}
+				} else if g.Chance(0.03) { // indices far beyond the valid ones (the theorems speak of |f| < 2^52): clamped to one end
+					f = (int64(1) << uint(35+g.Intn(17))) + g.Int63n(1000)
+					if g.Chance(0.5) {
+						f = -f
+					}
+					pos = "huge-index"
+				}
 				tags := []string{"dir=forward", "range=" + hr.kind, "pos=" + pos, Tag("v=%d", v), Tag("oz=%d", oz), Tag("fsign=%d", sign(f))}
 				vd := emit("convertVerticallIDToBit", tags, oz == 0, w.I(v), w.I(f), w.I(oz), w.F(mx), w.F(mn))
 				if l, ok := vd.Model.(w.List); ok {
@@ -859,8 +973,23 @@ func init() {
 				}
 				if reversed {
 					j := g.Intn(len(its))
+					if g.Chance(0.3) {
+						j = len(its) - 1 // the last element: everything before it is converted first
+					}
 					its[j].mx, its[j].mn = its[j].mn, its[j].mx
+					if g.Chance(0.25) {
+						its[j].mx = Ulp(its[j].mn, -1)
+					}
 					tags = append(tags, "reversed")
+				}
+				if i%70 == 19 { // the quadkey checks of the reverse conversion: above the limit (an error), negative (accepted)
+					if g.Chance(0.5) {
+						its[0].qk = 4611686018427388064 + 1 + g.Int63n(1000)
+						tags = append(tags, "quadkey-too-large")
+					} else {
+						its[0].qk = -1 - g.Int63n(1000)
+						tags = append(tags, "quadkey-negative")
+					}
 				}
 				if i%90 == 9 {
 					switch g.Intn(3) {
